@@ -31,7 +31,7 @@ func init() {
 			">= max_fails failures are certainly remembered must avoid A, one made while fewer than max_fails can possibly be remembered must use A; counters never negative and 0 at quiescence; " +
 			"consecutive selections of one connection >= try_interval apart, failure not before try_duration, last dial error reported, success when an upstream returns; refusing peer unselected within a " +
 			"bounded number of intervals and reselected after it returns (canary-guarded); the (max+1)-th held connection never reaches the full upstream and the next one does after a release. " +
-			"non-trivial = the history contains both outcomes; distinct = hash(history parameters, outcome signature). history reload-shared: upstreams {A, limit 1} and {A, M}; one connection held through the first; the configuration is reloaded 2-4 times; in every generation a probe must go to the second upstream (reaches M) and A's pool entry must count the held connection; after it ends the first upstream takes a connection again.",
+			"non-trivial = the history contains both outcomes; distinct = hash(history parameters, outcome signature). history reload-shared: upstreams {A, limit 1} and {A, M}; one connection held through the first; the configuration is reloaded 2-4 times; in every generation a probe must go to the second upstream (reaches M) and A's pool entry must count the held connection; after it ends the first upstream takes a connection again. history active-passive: both checkers configured; a dial fails right after the upstream stopped accepting (remembered for fail_duration 3 s), the active checker marks it down and, after it accepts again, up: until fail_duration has passed probes avoid the upstream, its failure count stays within 0..1, afterwards it is selected again. after every retry history no upstream counts an open connection.",
 		Assumptions: []string{
 			"boundary instants are never asserted: margins >= D/3 separate 'certainly remembered' from 'certainly forgotten'",
 			"simultaneous opens racing between selection and counting are not asserted (connections are opened sequentially and confirmed established)",
@@ -221,6 +221,9 @@ func genHistory(seed int64, i int) *History {
 	if i%18 == 16 {
 		h.Kind = "reload-shared"
 	}
+	if i%36 == 22 {
+		h.Kind = "active-passive"
+	}
 	h.D = 300 + r.Intn(7)*100
 	h.M = 1 + r.Intn(3)
 	h.T = 500 + r.Intn(8)*100
@@ -278,6 +281,8 @@ func run(c *fw.Ctx) {
 					overlap(c, canary, h)
 				case "reload-shared":
 					reloadShared(c, canary, h)
+				case "active-passive":
+					activePassive(c, canary, h)
 				}
 			}(h)
 		}
@@ -530,6 +535,15 @@ func retry(c *fw.Ctx, canary *oracle.Canary, h *History) {
 			report(c, h, "no-retry", fmt.Sprintf("only %d selection(s) were made within try_duration %v", len(mine), T), nil)
 		}
 	}
+	// the attempt is over and its connection closed: nothing is open, whatever was dialled and given up on the way
+	for _, u := range []*upstream{A, B} {
+		if st, ok := counters(u); ok && st.NumConns != 0 {
+			time.Sleep(50 * time.Millisecond)
+			if st2, _ := counters(u); st2.NumConns != 0 {
+				report(c, h, "connection-count-wrong", fmt.Sprintf("after an attempt with %d selections (retries within try_duration) no proxied connection is open, yet upstream %s counts %d", len(mine), u.addr, st2.NumConns), nil)
+			}
+		}
+	}
 	c.Obs("selections_logged", int64(len(mine)))
 	c.Case(fw.Hash(h.Kind, h.T, h.I, len(mine)), len(mine) >= 2, func() any {
 		return map[string]any{"history": h, "selections": len(mine), "outcome": at.outcome, "duration": dur.String()}
@@ -711,6 +725,8 @@ func replay(c *fw.Ctx, raw json.RawMessage) {
 		overlap(c, canary, h)
 	case "reload-shared":
 		reloadShared(c, canary, h)
+	case "active-passive":
+		activePassive(c, canary, h)
 	}
 }
 
@@ -924,4 +940,85 @@ func reloadShared(c *fw.Ctx, canary *oracle.Canary, h *History) {
 	}
 	hmods.SelectLog(sel)
 	c.Case(fw.Hash("reload-shared", h.Via, reloads, outcomes), true, func() any { return map[string]any{"history": h, "outcomes": outcomes} })
+}
+
+// activePassive: active and passive health checks on the same handler. A client's dial fails right after the upstream
+// stopped accepting (the failure is remembered for fail_duration = 3 s); the active checker marks the upstream down and,
+// after it accepts again, up. The remembered failure is not the active checker's business: until fail_duration has
+// passed the upstream stays out of rotation, the failure count never leaves 0..1, and afterwards the upstream returns.
+func activePassive(c *fw.Ctx, canary *oracle.Canary, h *History) {
+	A, err := newUpstream()
+	if err != nil {
+		c.Inconclusive("listen: " + err.Error())
+		return
+	}
+	B, _ := newUpstream()
+	defer A.release()
+	defer B.release()
+	D := 3 * time.Second
+	slack := 500 * time.Millisecond
+	sel := nextTag("sel")
+	routes := proxyRoutes([]map[string]any{dial(A), dial(B)}, map[string]any{"health_checks": map[string]any{
+		"active":  map[string]any{"interval": "100ms", "timeout": "200ms"},
+		"passive": map[string]any{"fail_duration": "3s", "max_fails": 1}}}, sel)
+	app, err := drive.StartApp(routes, "5s")
+	if err != nil {
+		report(c, h, "config-rejected", err.Error(), routes)
+		return
+	}
+	defer app.Stop()
+	time.Sleep(250 * time.Millisecond)
+	at0, _, _ := connect(app, A, B, nextTag("ap"), false, 5*time.Second)
+	outcomes := at0.outcome[:1]
+	A.down()
+	at1, _, _ := connect(app, A, B, nextTag("ap"), false, 5*time.Second)
+	outcomes += at1.outcome[:1]
+	negative := func(when string) {
+		if st, ok := counters(A); ok && st.Fails < 0 {
+			report(c, h, "failure-count-negative", fmt.Sprintf("%s: the upstream's remembered failures number %d", when, st.Fails), map[string]any{"outcomes": outcomes})
+		}
+	}
+	if at0.outcome != "A" || at1.outcome != "fail" {
+		// the active checker noticed the outage before the client's dial: no failure was remembered, nothing to judge
+		c.Obs("active_passive_without_remembered_failure", 1)
+		hmods.SelectLog(sel)
+		c.Case(fw.Hash("active-passive", outcomes), false, nil)
+		return
+	}
+	tf := at1.b // the failure was observed before this instant (and after at1.a)
+	time.Sleep(500 * time.Millisecond)
+	if err := A.upAgain(); err != nil {
+		c.Inconclusive("cannot reopen the upstream port")
+		return
+	}
+	time.Sleep(700 * time.Millisecond) // several intervals: the active checker has marked the peer up again
+	negative("after the recovery")
+	for k := 0; k < 3; k++ {
+		p, _, _ := connect(app, A, B, nextTag("ap"), false, 5*time.Second)
+		outcomes += p.outcome[:1]
+		if p.outcome == "A" && p.b <= at1.a+D-slack {
+			if canary.MaxOversleep() > slack/2 {
+				c.Inconclusive("noisy scheduler")
+			} else {
+				report(c, h, "failed-upstream-still-in-rotation", fmt.Sprintf("a dial to the upstream failed at +%v (max_fails 1, fail_duration %v); a connection offered and served by +%v went to it again (the active checker had marked it up in between)", at1.a, D, p.b), map[string]any{"outcomes": outcomes})
+			}
+			break
+		}
+		time.Sleep(150 * time.Millisecond)
+	}
+	for vnet.Now() < tf+D+slack {
+		time.Sleep(50 * time.Millisecond)
+	}
+	negative("after fail_duration")
+	if st, ok := counters(A); ok && st.Fails != 0 && canary.MaxOversleep() <= slack/2 {
+		report(c, h, "failure-never-forgotten", fmt.Sprintf("fail_duration + slack after the only dial failure the upstream still counts %d", st.Fails), nil)
+	}
+	p, _, _ := connect(app, A, B, nextTag("ap"), false, 5*time.Second)
+	outcomes += "/" + p.outcome[:1]
+	if p.outcome != "A" && canary.MaxOversleep() <= slack/2 {
+		report(c, h, "upstream-not-back-in-rotation", fmt.Sprintf("fail_duration + slack after its only failure, with the active checker seeing it up, the upstream was not selected (%s)", p.outcome), nil)
+	}
+	// one more failure must take it out again (a count below zero would swallow it)
+	hmods.SelectLog(sel)
+	c.Case(fw.Hash("active-passive", outcomes), true, func() any { return map[string]any{"history": h, "outcomes": outcomes} })
 }
